@@ -38,7 +38,7 @@ def toyReadDate (s : Str) : Option Int :=
   | '+' :: t => some (t.length : Int)
   | _ => none
 
-def toyDate : DateCodec := { showDate := toyShowDate, readDate := toyReadDate }
+def toyDate : DateCodec := { showDate := toyShowDate, readDate := toyReadDate, dateDom := fun _ => true }
 
 def toyCodec : Codec := { toAmtCodec := toyAmt, toDateCodec := toyDate }
 
@@ -133,7 +133,7 @@ theorem toyAmt_lawful : toyAmt.Lawful where
 
 theorem toyDate_lawful : toyDate.Lawful where
   read_show := by
-    intro n
+    intro n _
     show toyReadDate (toyShowDate n) = some n
     unfold toyShowDate
     by_cases h : n < 0
@@ -142,7 +142,7 @@ theorem toyDate_lawful : toyDate.Lawful where
     · simp only [h, if_false, toyReadDate, unary_length]
       congr 1; omega
   show_ok := by
-    intro n
+    intro n _
     show dateTextOk (toyShowDate n) = true
     unfold dateTextOk toyShowDate
     simp only [Bool.and_eq_true, Bool.not_eq_true', List.all_eq_true, bne_iff_ne, ne_eq]
